@@ -257,6 +257,8 @@ PY_KINDS = {
     "block": ("<%", "%>"),
     "module-block": ("<%!", "%>"),
     "expression": ("${", "}"),
+    "attribute-expression": ("<%include file=\"${", "}\"/>"),
+    "cache-key-expression": ("<%def name=\"d()\" cached=\"True\" cache_key=\"k${", "}\"></%def>"),
 }
 
 
